@@ -9,6 +9,7 @@ import (
 	"path/filepath"
 	"regexp"
 	"strings"
+	"syscall"
 
 	"vh/drv"
 )
@@ -22,6 +23,27 @@ type C16Case struct {
 	Seed    uint64 `json:"seed"`
 	OnlyK   int    `json:"only_k,omitempty"` // replay: only this crash point (0: all)
 	PreDir  bool   `json:"predir,omitempty"` // the test's fail file directory exists already (empty) when the save starts
+	// the system's directory for temporary files ($TMPDIR) is on another file system than the package directory
+	// (a rename from there fails with EXDEV), if the machine has one the harness can write to
+	TmpOther bool `json:"tmpother,omitempty"`
+}
+
+// otherFSDir creates a directory on a file system other than the one of the working directory, or returns "".
+func otherFSDir() string {
+	var here syscall.Stat_t
+	if syscall.Stat(".", &here) != nil {
+		return ""
+	}
+	for _, cand := range []string{"/dev/shm", "/run/shm", "/run/user/0", "/var/tmp", "/tmp"} {
+		var st syscall.Stat_t
+		if syscall.Stat(cand, &st) != nil || st.Dev == here.Dev {
+			continue
+		}
+		if d, err := os.MkdirTemp(cand, "vh-c16-"); err == nil {
+			return d
+		}
+	}
+	return ""
 }
 
 func (cs *C16Case) prog() *Prog {
@@ -61,6 +83,7 @@ func (c16) Gen(dt *drv.T, c *Ctx) any {
 		cs.Lines = append(cs.Lines, pick(dt, "linelen", 0, 10, 5000, 4096, 65536, 70000, 200000))
 	}
 	cs.PreDir = drv.Bool().Draw(dt, "predir")
+	cs.TmpOther = drv.Bool().Draw(dt, "tmpother")
 	return cs
 }
 
@@ -90,6 +113,13 @@ func (c16) Run(c *Ctx, csAny any) Outcome {
 	argv := []string{bin, "-test.run", "^$"}
 	env := childEnv(cs)
 	name := string(cs.NameRaw)
+	tmpOther := ""
+	if cs.TmpOther {
+		if tmpOther = otherFSDir(); tmpOther != "" {
+			env = append(env, "TMPDIR="+tmpOther)
+			defer os.RemoveAll(tmpOther)
+		}
+	}
 
 	// run 0: no crash; counts the crash points and yields the reference file
 	d0 := EnterCaseDir()
@@ -189,6 +219,9 @@ func (c16) Run(c *Ctx, csAny any) Outcome {
 	out.Classes = append(out.Classes, fmt.Sprintf("crash-points-%d", K))
 	if cs.PreDir {
 		out.Classes = append(out.Classes, "directory-existed-before")
+	}
+	if tmpOther != "" {
+		out.Classes = append(out.Classes, "TMPDIR-on-another-file-system")
 	}
 	return out
 }
